@@ -1,12 +1,12 @@
 #!/venv/bin/python
 # replay for obligation aioftp.server:Server.rnto#SEQ::Server.rnto/raises:rename-consumed-once-the-backend-was-asked
-# path: conn.logged-present=T.conn.rename_from-present=T.wait_for-outcome=0.backend.exists-fault=0.if@4=F.conn.user-present=T.conn.user-done=T.if@6=F.conn.rename_from-done=T.backend.rename-fault=1
+# path: conn.logged-present=T.conn.rename_from-present=T.wait_for-outcome=0.backend.exists-fault=0.if@4=F.conn.user-present=T.conn.user-done=T.if@6=F.conn.rename_from-done=T.backend.rename-fault=1.wait_future_timeout-is-None=0
 # run: AIOFTP_REPO=/repo /venv/bin/python /verif/replays/C05_aioftp.server_Server.rnto_SEQ_Server.rnto_raises_rename-consumed-once-the-backend-was-asked.py
 import os, sys
 sys.path.insert(0, os.path.join(os.environ.get("AIOFTP_REPO", "/repo"), "src"))
 OBLIGATION = 'aioftp.server:Server.rnto#SEQ::Server.rnto/raises:rename-consumed-once-the-backend-was-asked'
 MODEL = {}
-SOLVER_NOTE = 'cvc5=unknown z3=unknown counter-model of the cone-of-influence slice (0 of 77 assumptions)'
+SOLVER_NOTE = 'cvc5=unknown z3=unknown counter-model of the cone-of-influence slice (0 of 78 assumptions)'
 
 print("obligation", OBLIGATION, "failed; no concrete failing input could be constructed automatically")
 print("counter-model (may be spurious where string builtins are uninterpreted):")
